@@ -181,6 +181,47 @@ def run(ctx):
         ctx.ob(R5, f"{C}._utils::_costs_existance_check::return{i}", both and not bad,
                f"returns {norm(v, 70)}" + (" : bitwise & of the two counts is 0 whenever only one table has the duplicate" if bad else ""),
                fi.loc(r))
+    # the power_type filter of the pwl table applies only when a power_type is given (the single check has a separate branch for
+    # power_type is None): a comparison `== power_type` that is reachable with power_type None empties the pwl half of the check
+    def known_false_with_none(test):
+        if isinstance(test, ast.Call) and isinstance(test.func, ast.Name) and test.func.id == "isinstance" and test.args \
+                and isinstance(test.args[0], ast.Name) and test.args[0].id == "power_type":
+            return True
+        if isinstance(test, ast.Compare) and isinstance(test.left, ast.Name) and test.left.id == "power_type" and len(test.ops) == 1 \
+                and isinstance(test.comparators[0], ast.Constant) and test.comparators[0].value is None:
+            return isinstance(test.ops[0], (ast.IsNot, ast.NotEq))
+        if isinstance(test, ast.BoolOp) and isinstance(test.op, ast.And):
+            return any(known_false_with_none(v) for v in test.values)
+        if isinstance(test, ast.BoolOp) and isinstance(test.op, ast.Or):
+            return all(known_false_with_none(v) for v in test.values)
+        return False
+
+    def known_true_with_none(test):
+        if isinstance(test, ast.Compare) and isinstance(test.left, ast.Name) and test.left.id == "power_type" and len(test.ops) == 1 \
+                and isinstance(test.comparators[0], ast.Constant) and test.comparators[0].value is None:
+            return isinstance(test.ops[0], (ast.Is, ast.Eq))
+        return False
+    for f_ in (fi, ctx.repo.func(f"{C}._utils:_cost_existance_check")):
+        pm = {c: p_ for p_ in ast.walk(f_.node) for c in ast.iter_child_nodes(p_)}
+        k = 0
+        for node in ast.walk(f_.node):
+            if isinstance(node, ast.Compare) and isinstance(node.comparators[0], ast.Name) and node.comparators[0].id == "power_type" \
+                    and "power_type" in ast.unparse(node.left) and isinstance(node.ops[0], ast.Eq):
+                k += 1
+                cur, reach = node, True
+                while cur in pm:
+                    par = pm[cur]
+                    if isinstance(par, ast.If):
+                        in_body = any(cur is x or any(cur is y for y in ast.walk(x)) for x in par.body)
+                        if in_body and known_false_with_none(par.test):
+                            reach = False
+                        if (not in_body) and known_true_with_none(par.test):
+                            reach = False
+                    cur = par
+                ctx.ob(R5, f"{C}._utils::{f_.qualname}::power-type-filter{k}", not reach,
+                       "the power_type filter is applied only when a power_type is given" if not reach else
+                       f"`{norm(node, 60)}` is evaluated with power_type None as well: nothing equals None, the pwl costs drop out of the "
+                       "duplicate check (a second cost for the element is accepted)", f_.loc(node))
     fs = ctx.repo.func(f"{C}._utils:_cost_existance_check")
     ors = [n for n in ast.walk(fs.node) if isinstance(n, ast.BoolOp) and isinstance(n.op, ast.Or)]
     ctx.ob(R5, f"{C}._utils::_cost_existance_check::disjunction", len(ors) >= 2, "single check combines poly/pwl with 'or'", fs.loc())
@@ -198,5 +239,6 @@ def variants(repo):
         V("loads batch skips bus check", ld, in_function("create_loads", lambda s: s.replace("    _check_multiple_elements(net, buses, \"bus\")\n", "", 1) if "_check_multiple_elements(net, buses, \"bus\")" in s else s.replace("_check_multiple_elements(", "len(", 1)), "CHECKS"),
         V("batch lines drop zero sequence", l, in_function("create_lines", lambda s: s.replace('            for param in ("r0_ohm_per_km", "x0_ohm_per_km", "c0_nf_per_km"):\n                entries[param] = lineparam[param]\n', '            pass\n', 1)), "create_lines::x0_ohm_per_km"),
         V("batch dc lines drop alpha", l, in_function("create_lines_dc", lambda s: s.replace('        if "alpha" in net.line.columns and "alpha" in lineparam:\n            entries["alpha"] = lineparam["alpha"]\n', '', 1)), "create_lines_dc::alpha"),
+        V("pwl power_type filter without guard", u, in_function("_costs_existance_check", replace_once("        if isinstance(power_type, str):\n            pwl_exist &= (net.pwl_cost.power_type == power_type).values", "        pwl_exist &= (net.pwl_cost.power_type == power_type).values")), "power-type-filter"),
         V("cost pred and", u, in_function("_costs_existance_check", replace_once("return sum(poly_exist) + sum(pwl_exist)", "return sum(poly_exist) & sum(pwl_exist)")), "COST-PRED"),
     ]
